@@ -14,25 +14,29 @@ sys.path.insert(0, os.path.join(vf.VERIF, "lib"))
 import c08gen as G  # noqa: E402
 
 META = {
-    "text": "Theorems (Coq, no axioms) over a literal model of libStatus/Status (after the repairs F9, F21, F22 committed in /repo) and "
-            "of the node's add-block/reorg call sequence, for all producer counts and all delivery histories (arbitrary blocks and "
-            "Confirms, forks) with restarts at every point: the LIB height never decreases; a block numbered <= LIB and a "
-            "reorganisation forking below the LIB change nothing; every main-chain block at or below a LIB ever reported stays "
-            "forever; the LIB, all proposals and all confirms elements are on the main chain; a node's successive LIBs lie on one "
-            "branch; a block becomes a proposed LIB only after 2n/3+1 main-chain blocks whose windows contain it (distinct "
-            "producers when windows are honest); at least n'-(n'-1)/3 proposals are >= a computed LIB; two quorums of 2n/3+1 "
-            "producers share a correct one when f < n/3; restart restores the LIB exactly and is idempotent; in every reachable "
-            "world of the protocol model every node's LIB is on its own main chain.  The global agreement clause is REFUTED on "
-            "the protocol model and reproduced on real Status objects every run (F14: Confirms never validated; F14b: "
-            "equivocation + partition, no lock); so is equality of the restored proposal map with the one computed online; these "
-            "are known findings.",
+    "text": "Theorems (Coq, no axioms) over a literal model of libStatus/Status (after the committed repairs F9, F21, F22, F24), of "
+            "the node's add-block/reorg call sequence and of the block-producer election (bp.Snapshots/Cluster/GetRankers), for "
+            "all producer counts and all delivery histories (arbitrary blocks and Confirms, forks) with restarts at every point: "
+            "the LIB height never decreases; a block numbered <= LIB and a reorganisation forking below the LIB change nothing; "
+            "every main-chain block at or below a LIB ever reported stays forever; the LIB, all proposals and all confirms "
+            "elements are on the main chain; a node's successive LIBs lie on one branch; a block becomes a proposed LIB only "
+            "after 2n/3+1 main-chain blocks whose windows contain it (distinct producers when windows are honest); at least "
+            "n'-(n'-1)/3 proposals are >= a computed LIB; two quorums of 2n/3+1 producers share a correct one when f < n/3; "
+            "restart restores the LIB exactly and is idempotent; ForceResetHeight leaves nothing above the reset height; "
+            "confirmsRequired is 2n/3+1 of the current producer count; retired producers lose their proposal entry at the "
+            "election boundary; for a constant BPCOUNT the producer set is a function of the main chain (also after restarts "
+            "and reorganisations across election boundaries).  REFUTED on the model and reproduced on the real code every run "
+            "(known findings): the global agreement clause (F14 Confirms never validated, F14b equivocation + partition, F14c "
+            "sparse proposal map), equality of the restored proposal map with the online one, and 'producer set is a function "
+            "of the main chain' when BPCOUNT changes (F23: ranking cut at the in-memory BPCOUNT).",
     "note": "Trusted: Coq kernel/vm_compute; 60-bit observation hash; the dpos engine's mirror of ChainService.addBlock/reorg around "
             "Status (its call order is compared with the real ChainService by a second engine; block execution and orphan "
-            "handling are C05/C07's); generator; gob round-trip through the real Save/bootLoader; producer-set changes (bps "
-            "snapshots) are modelled (gc with a producer list) but only exercised directly, all heights < bootstrap height; "
-            "ForceResetHeight not modelled.",
-    "technique": "Coq invariant proofs over executable Gallina model + vm_compute correspondence against the real dpos.Status and "
-                 "chain.ChainService + multi-node disagreement search",
+            "handling are C05/C07's); the election engine's emulation of the in-memory BPCOUNT life cycle (InitSystemParams at "
+            "start-up/end of reorg, CommitParams after AddSnapshot), no transaction is executed; generator; gob round-trip "
+            "through the real Save/bootLoader.  agreement_under_lock is proved for an abstract rule and does not transfer to the "
+            "implementation (reasons in Dpos/AgreementLock.v).",
+    "technique": "Coq invariant proofs over executable Gallina models + vm_compute correspondence against the real dpos.Status, "
+                 "bp.Snapshots/Cluster, system.GetRankers and chain.ChainService + multi-node disagreement search",
 }
 
 RES = {"dup": 0, "le_lib": 1, "orphan": 2, "invalid": 3, "connected": 4, "side": 5, "veto": 6, "reorg": 7}
